@@ -4,6 +4,8 @@
 //!
 //! Case: {"concurrency": null|k, "outer": bool (the whole run is polled inside an application span),
 //!        "scenarios": [{"id": s, "retry": null|n, "fails": k,
+//!        "filter": "warn" (the cucumber layer behind LevelFilter::WARN, messages emitted as warnings),
+//!        "which_after": bool (a `which_scenario` classifier installed AFTER init_tracing()),
 //!         "steps": [{"id": st, "pre": n, "yields": n, "post": n, "inner": bool (messages are emitted inside a user
 //!                    span nested in the step's span), "under": bool (the message text contains double underscores)}]}]}
 //! History records: ["cb", scenario, step, attempt, span] ["emit", scenario, message id, span] ["close", span] ["sub", span] ["fwd"]
@@ -63,6 +65,7 @@ struct St {
     visits: BTreeMap<u64, u64>,
     step_no: BTreeMap<u64, u64>,
     next_msg: u64,
+    warn: bool,
     events: Vec<Value>,
 }
 thread_local! {
@@ -76,7 +79,16 @@ fn emit(sid: u64, span: u64, under: bool) {
         s.next_msg
     });
     verif_trace::record("emit", sid * 1_000_000 + m, span);
-    if under {
+    let warn = ST.with(|s| s.borrow().warn);
+    if warn {
+        // the run is filtered at WARN: harness messages are warnings, and an INFO line that must never show up
+        if under {
+            tracing::warn!("Foo.__init__ LOGMSG#{m}# snake__case");
+        } else {
+            tracing::warn!("LOGMSG#{m}#");
+        }
+        tracing::info!("filtered out");
+    } else if under {
         // text with double underscores (the collector's own separator): `Foo.__init__(self)`, `snake__case`
         tracing::info!("Foo.__init__ LOGMSG#{m}# snake__case");
     } else {
@@ -197,21 +209,45 @@ fn main() {
     }
     let _ = verif_trace::take();
     let outer = case["outer"].as_bool().unwrap_or(false);
+    let warn = case["filter"].as_str() == Some("warn");
+    ST.with(|x| x.borrow_mut().warn = warn);
+    let which_after = case["which_after"].as_bool().unwrap_or(false);
     let res = std::panic::catch_unwind(move || {
         use tracing::Instrument as _;
-        let run = 
-            cucumber::Cucumber::<W, _, _, _, _, cli::Empty>::custom(
-                VecParser(vec![f]),
-                cucumber::runner::Basic::default()
-                    .max_concurrent_scenarios(case["concurrency"].as_u64().map(|n| n as usize))
-                    .given(regex::Regex::new("^log ").expect("re"), logging_step),
-                Rec,
+        use tracing_subscriber::{Layer as _, layer::SubscriberExt as _};
+        let cuke = cucumber::Cucumber::<W, _, _, _, _, cli::Empty>::custom(
+            VecParser(vec![f]),
+            cucumber::runner::Basic::default()
+                .max_concurrent_scenarios(case["concurrency"].as_u64().map(|n| n as usize))
+                .given(regex::Regex::new("^log ").expect("re"), logging_step),
+            Rec,
+        );
+        // `filter: "warn"`: the cucumber layer sits behind a stricter level filter than the usual INFO
+        let cuke = if warn {
+            cuke.configure_and_init_tracing(
+                tracing_subscriber::fmt::format::DefaultFields::new(),
+                tracing_subscriber::fmt::format::Format::default(),
+                |layer| {
+                    tracing_subscriber::registry()
+                        .with(tracing_subscriber::filter::LevelFilter::WARN.and_then(layer))
+                },
             )
-            .init_tracing()
-            .with_default_cli()
-            .run(());
+        } else {
+            cuke.init_tracing()
+        };
+        // `which_after`: the runner is customised AFTER the tracing integration has been switched on (a classifier
+        // that classifies like the default one: no scenario here is tagged @serial)
+        let run: futures::future::LocalBoxFuture<'static, ()> = if which_after {
+            cuke.which_scenario(|_, _, _| cucumber::runner::basic::ScenarioType::Concurrent)
+                .with_default_cli()
+                .run(())
+                .map(drop)
+                .boxed_local()
+        } else {
+            cuke.with_default_cli().run(()).map(drop).boxed_local()
+        };
         if outer {
-            // the subscriber is installed by init_tracing() above, so the span is created lazily inside
+            // the subscriber is installed above, so the span is created lazily inside
             futures::executor::block_on(async move {
                 run.instrument(tracing::info_span!("application")).await;
             });
